@@ -128,3 +128,72 @@ def _(eng):
                  z3.Implies(z3.And(Mem(S.links(cc), l), S.other(l, cc) == dd),
                             z3.And(Mem(P.links(cc), l), P.ends(l) == S.ends(l))),
                  meta={"clause": "links joining another pair are still attached with the same ends"})
+
+
+# ---------------------------------------------------------------------------------------------- C05: cache coherence (I5)
+from .helpers import I5, I5_at, NBf, heap_key  # noqa: E402
+from .common import MEMO_KEY  # noqa: E402
+
+C05_MUTATORS = C01_OPS + ["Universe.add_vertex", "Universe.remove_vertex", "Vertex.add_to_universe",
+                          "Vertex.remove_from_universe", "Universe.laws.setter", "UniverseLaws.applies_to.setter"]
+
+
+def _footprint(op):
+    def fn(eng):
+        """I5 is preserved by the mutator `op`, for both values of the caching flag (the contract's cache effect does not
+        depend on it): every memo entry that survives belongs to a vertex whose NB-footprint is untouched -
+        same ordered link list, and every one of its links has the same ends; the entry's list object and its
+        contents are the same.  NB is a fold over exactly that footprint (flatMap congruence, Lean: nb_congr), so the
+        surviving entries still equal NB of the new heap."""
+        fi, c, p, args, spec = eng.entry_path(op)
+        ct = eng.ct
+        S = eng.pre
+        p.schemas += [I1_sym(S, ct), I1_nodup(S, ct), TY_links(S, ct), I2_sym(S, ct), I2_nodup(S, ct), TY_unis(S, ct),
+                      I19(S, ct), TY_laws(S, ct)]
+        for oi, o in enumerate(spec.outcomes):
+            if not eng.feasible(p, o.cond):
+                continue
+            q = p.copy()
+            q.assume(o.cond)
+            eng.enter_outcome(q, o, S)
+            P = q.st
+            x0, f0, l0 = T.fresh("sk_x", Ref), T.fresh("sk_f", Ref), T.fresh("sk_l", Ref)
+            d0, u0 = T.fresh("sk_d", Int), T.fresh("sk_u", Int)
+            q.assume(P.memo_has(x0, d0, u0, f0))
+            # entries only exist on vertices (typing of the memo): the key vertex is not a fresh object of this call
+            q.assume(ct.is_a(x0, "Vertex"))
+            lab = o.label or (("raises-" + str(o.exc)) if o.exc else "normal") + str(oi)
+            eng.emit(q, "lemma", f"C05/I5/{op}/{lab}/entry-existed", z3.And(S.memo_has(x0, d0, u0, f0),
+                     P.memo_val(x0, d0, u0, f0) == S.memo_val(x0, d0, u0, f0)),
+                     meta={"clause": "a memo entry present afterwards was present before, with the same list object"})
+            eng.emit(q, "lemma", f"C05/I5/{op}/{lab}/list-contents", P.elems(S.memo_val(x0, d0, u0, f0)) == S.elems(S.memo_val(x0, d0, u0, f0)),
+                     meta={"clause": "the memoised list object keeps its contents"})
+            eng.emit(q, "lemma", f"C05/I5/{op}/{lab}/links-unchanged", P.links(x0) == S.links(x0),
+                     meta={"clause": "a vertex that keeps a memo entry keeps its ordered link list (else the entry must be dropped)"})
+            eng.emit(q, "lemma", f"C05/I5/{op}/{lab}/ends-unchanged", z3.Implies(Mem(S.links(x0), l0), P.ends(l0) == S.ends(l0)),
+                     meta={"clause": "every link of a vertex that keeps a memo entry keeps its ends (else the entry must be dropped)"})
+    return fn
+
+
+for _op in C05_MUTATORS:
+    REG.lemma(f"C05/I5-footprint/{_op}", props=("C05",))(_footprint(_op))
+
+
+@REG.lemma("C05/I5-preserved-by/helpers.neighbors", props=("C05",))
+def _(eng):
+    """neighbors() itself keeps I5: the entry it inserts holds NB of the (unchanged) heap"""
+    fi, c, p, args, spec = eng.entry_path("helpers.neighbors")
+    S = eng.pre
+    p.schemas.append(I5(S))
+    for oi, o in enumerate(spec.outcomes):
+        if not eng.feasible(p, o.cond):
+            continue
+        q = p.copy()
+        q.assume(o.cond)
+        eng.enter_outcome(q, o, S)
+        P = q.st
+        x0, f0 = T.fresh("sk_x", Ref), T.fresh("sk_f", Ref)
+        d0, u0 = T.fresh("sk_d", Int), T.fresh("sk_u", Int)
+        assert heap_key(P) == heap_key(S)       # neighbors() does not write links / ends: NB is the same function
+        eng.emit(q, "lemma", f"C05/I5/helpers.neighbors/{o.label}", I5_at(P, x0, d0, u0, f0),
+                 meta={"clause": "I5 holds after neighbors() (normal or abnormal end)"})
